@@ -68,13 +68,17 @@ where
                 .number_of_chunks_per_segment(NSAMPLES)
                 .timeout(Duration::ZERO)
         };
-        let sender = mk().create_sender().expect("sender");
+        // both ports live until the end of the execution and are dropped by this function (a leaked sender keeps its
+        // mapping and descriptor: tens of thousands of executions exhausted them in the thorough tier)
+        let sender_slot = Arc::new(Mutex::new(mk().create_sender().expect("sender")));
         let receiver = Arc::new(Mutex::new(mk().create_receiver().expect("receiver")));
         let ch = ChannelId::new(0);
         let (sp, rp) = (sprog.clone(), rprog.clone());
         let r2 = receiver.clone();
+        let s2 = sender_slot.clone();
         let bodies: Vec<sched::Body> = vec![
             Box::new(move || {
+                let sender = s2.lock().unwrap();
                 let mut used: Vec<bool> = vec![false; NSAMPLES];
                 for op in sp {
                     sched::yield_api(&op);
@@ -109,8 +113,6 @@ where
                         sched::log_api(json!({"k":"ret","t":0,"a":"reclaim","r":r,"v":v}));
                     }
                 }
-                // keep the sender alive until the end of the execution
-                std::mem::forget(sender);
             }),
             Box::new(move || {
                 let receiver = r2.lock().unwrap();
@@ -169,6 +171,7 @@ where
         out.emit(&json!({"k":"end","outcome": if res.outcome == Outcome::Completed {"completed"} else {"aborted"},
                          "hasdata":hasdata,"borrowed":borrowed,"sched":res.schedule,"panics":panics}));
         drop(receiver);
+        drop(sender_slot);
         let _ = unsafe { <C as iceoryx2_cal::named_concept::NamedConceptMgmt>::remove_cfg(&name, &Default::default()) };
         executions += 1;
     };
